@@ -1055,7 +1055,7 @@ def run(ctx):
                         "non-2xx status, undecodable / malformed / non-object JSON body, JSON object of the wrong listing "
                         "shape (value not a list, nextLink not a string); a string nextLink that is no usable url is "
                         "tested directly on the implementation, not modelled",
-                        "finite pagination (no cyclic nextLink), server is a function of the url"]
+                        "the model collects the walk before filtering, the client's generator filters as it goes: when FileFilter.matches raises TypeError (naive vs aware datetime — a naive bound or a timestamp without zone in the library) the two would surface a second error source (fault, repeated nextLink) in a different order, so such library+filter pairs are run fault-free and cycle-free and only the outcome is compared; all theorems about filtered listings carry the `comparable` hypothesis that excludes exactly this"]
     sysfields, base, token_url = gen_tables(ctx, client_mod)
     from urllib.parse import urlparse
     pu = urlparse(SITE_URL)
@@ -1138,14 +1138,20 @@ def run(ctx):
             # FileFilter.matches raising TypeError (naive vs aware bound) is evaluated lazily by the generator, the model
             # filters after the walk: with a second source of errors (fault, repeated nextLink) the order in which the two
             # surface differs, so such filters are run without faults and without cycles
-            lazy_sensitive = mode == "random" and fk == "naive"
-            cyclic = mode == "random" and idx % 9 == 4 and not lazy_sensitive and make_cyclic(rng, paging)
+            # (whether matches raises is a property of library + filter: decided from the fault-free, cycle-free run.  It
+            # happens for naive bounds AND for a timestamp without zone in the library, e.g. "2024-01-15T10:30:00".)
             fin = {oid for oid in paging if rng.random() < 0.2}
             table = build_table(base, site_api, SITE, drive, tree, paging, fin)
             rec.glob, rec.iso = {}, {}
             client_mod.fnmatch, client_mod.datetime = rec.fn, rec.dt
             bits = rng.getrandbits(16)
             healthy = run_impl(client_mod, table, token_url, flt, drive, [], bits)
+            lazy_sensitive = healthy["result"][0] == "typeerror" or healthy["retry"][0] == "typeerror"
+            cyclic = mode == "random" and idx % 9 == 4 and not lazy_sensitive and make_cyclic(rng, paging)
+            if cyclic:
+                table = build_table(base, site_api, SITE, drive, tree, paging, fin)
+                rec.glob, rec.iso = {}, {}
+                healthy = run_impl(client_mod, table, token_url, flt, drive, [], bits)
             case = {"tree": tree, "paging": paging, "filter": flt, "drive": drive, "sysfields": sysfields}
             if len(env_cases) < ctx.n(120, 300) and (mode != "random" or idx % 2 == 0):
                 env_cases.append({"tree": tree, "paging": paging, "fin": sorted(map(str, fin)), "_fin": fin, "filter": flt,
@@ -1161,7 +1167,9 @@ def run(ctx):
             judge(ctx, case, healthy, None, expected)
             m = len(healthy["log"])
             scripts = []
-            if mode == "sweep":
+            if lazy_sensitive:
+                scripts = []
+            elif mode == "sweep":
                 kinds = FAULTS if ctx.tier == "thorough" else rng.sample(FAULTS, 9)
                 scripts = [[(k, f)] for k in range(m) for f in kinds]
                 if len(scripts) > ctx.n(120, 350):
@@ -1201,7 +1209,11 @@ def run(ctx):
                                                       c_dt(flt[flt["_via"] + "_after"])[6:-1])),
                                  coq_list(coq_obs)))
             cases_info.append({"tree": tree, "paging": {str(k): v for k, v in paging.items()}, "filter": repr(flt),
-                               "drive": drive, "n_obs": len(observations)})
+                               "drive": drive, "n_obs": len(observations), "fin": sorted(map(str, fin)), "bits": bits,
+                               "via": (flt or {}).get("_via"), "cyclic": bool(cyclic), "mode": mode,
+                               "implementation": [{k: o[k] for k in ("faults", "result", "log", "opened", "closed", "tok", "sid", "retry")}
+                                                  for o in observations],
+                               "coq_case": cases_coq[-1]})
 
             def stamps_in(t):
                 for n in t:
@@ -1231,11 +1243,31 @@ def run(ctx):
     okc, failing, log = coq_eval_shards(ctx, "corr", pre, fn, cases_coq, shard=ctx.n(12, 40), ty="case", timeout=1200)
     ctx.traces += sum(c["n_obs"] for c in cases_info)
     ctx.obligation("correspondence:model==implementation on (tree, paging, filter, fault script) runs", okc and not failing,
-                   (f"{len(failing)} disagreeing cases, first: {json.dumps(cases_info[failing[0]], default=str)[:900] if failing else ''} " + log)[:1800])
+                   (f"{len(failing)} disagreeing cases; full cases written to replay/C18-corr-case-<i>.json for i in {failing[:3]}; first: "
+                    f"{json.dumps({k: v for k, v in cases_info[failing[0]].items() if k in ('filter', 'drive', 'paging', 'mode', 'cyclic', 'via')}, default=str)[:900] if failing else ''} " + log)[:1800])
     ctx.disagreements += len(failing)
     ctx.extra["corr_cases"] = len(cases_coq)
     if failing:
-        ctx.extra["corr_disagreements"] = [cases_info[i] for i in failing[:5]]
+        ctx.extra["corr_disagreements"] = [{k: v for k, v in cases_info[i].items() if k != "coq_case"} for i in failing[:5]]
+        # exact replay material: the complete case (library, paging, filter, every fault script with the implementation's
+        # result, request log, close counts, caches, retry), the Coq term handed to the model, and the model's own output
+        for i in failing[:3]:
+            mtxt = (pre + f"Definition c : case := {cases_info[i]['coq_case']}.\n"
+                    f"Definition E1 := mk_env system_fields graph_base {coq_str(token_url)} {coq_str(site_api)} (c_or c) false None.\n"
+                    "Definition view (o : obs) :=\n"
+                    "  let P := paging_of (c_paging c) in let fuel := (need P None (c_tree c) + 3)%nat in\n"
+                    "  let w := with_faults (healthy E1 (c_token c) (server_table E1 (c_site c) (c_drive c) P (c_tree c))) (ob_faults o) in\n"
+                    "  let '(r, s1) := run E1 w (the_prog E1 fuel c) st0 in\n"
+                    "  (check_obs E1 c o, match r with Ok l => (0, List.length l, None) | Raise e => (1, 0, Some e) end,\n"
+                    "   List.length (urls s1), opened s1, closed s1).\n"
+                    "Eval vm_compute in (map view (c_obs c)).\n")
+            okm, mout = ctx.coq_eval(f"disagree_{i}", mtxt, timeout=300)
+            common.REPLAY.mkdir(exist_ok=True)
+            (common.REPLAY / f"C18-corr-case-{i}.json").write_text(json.dumps(common._jsonable(
+                dict(cases_info[i], model_output=mout[-20000:], property="C18",
+                     note="per observation the model prints (agrees?, (0,n files,-)|(1,0,error), requests, opened, closed)")),
+                indent=1, ensure_ascii=True))
+        ctx.extra["corr_replay_files"] = [str(common.REPLAY / f"C18-corr-case-{i}.json") for i in failing[:3]]
 
     # a nextLink that is a string but no usable url (relative link): outside the model (Request() refuses it before
     # anything is sent); the property still demands the client's own error
